@@ -61,7 +61,12 @@ def correspond(ctx, C):
             kind = "default" if which == "defaults" else "example"
             nloc[kind] += len(m[kind + "Locs"] or [])
             g, impl, spec = observe(cont[0], m, which)
-            if g != impl:
+            if g != impl and g != spec:
+                # the code departs from the specification and the model of the code does not reproduce it: no listed
+                # finding can explain it, and this document is the failing input
+                viol.append((r["case"], {"what": "%s: a value its schema rejects is not reported, or an accepted one is (the model of the code as it was does not do this)" % which,
+                                         "not_reported": sorted(spec - g)[:6], "reported_but_accepted": sorted(g - spec)[:6]}))
+            elif g != impl:
                 ties.append((r["case"], {"what": "%s: locations reported by the implementation and by the model differ (tie T2 broken)" % which,
                                          "only_go": sorted(g - impl)[:6], "only_model": sorted(impl - g)[:6]}))
             elif g != spec:
